@@ -4,7 +4,11 @@ package evictions
 
 import (
 	"context"
+	"encoding/json"
+	"errors"
 	"fmt"
+	"net/http"
+	"net/http/httptest"
 	"sort"
 	"strings"
 	"sync"
@@ -19,6 +23,7 @@ import (
 	clientset "k8s.io/client-go/kubernetes"
 	"k8s.io/client-go/kubernetes/fake"
 	policyv1client "k8s.io/client-go/kubernetes/typed/policy/v1"
+	restclient "k8s.io/client-go/rest"
 	"k8s.io/client-go/tools/events"
 
 	"github.com/koordinator-sh/koordinator/pkg/descheduler/framework"
@@ -34,7 +39,7 @@ type c16Rec struct {
 	mu       sync.Mutex
 	okCalls  []string       // "ns/name" of eviction requests answered with success
 	allCalls int            // every request received
-	script   map[string]int // pod name -> 0 ok, 1 TooManyRequests, 2 NotFound, 3 internal error
+	script   map[string]int // pod name -> answer kind, see c16AnswerCodes
 	barrierN int
 	arrived  int
 	release  chan struct{}
@@ -53,10 +58,20 @@ func (r *c16Rec) disarm() {
 	r.mu.Unlock()
 }
 
-func (r *c16Rec) evict(ev *policy.Eviction) error {
+// answer kinds of the scripted API server.  Granted (the eviction is issued) = a 2xx answer.
+//   0: 201 Created   13: 200 OK   12: 200 whose body is a Status{Failure} (client-go's Do().Error() looks only at the code)
+//   1: 429  2: 404  3: 500  4: 403  5: 409  6: 400  7: 503  8: 504  9: 401  10: 422  14: 300  15: 410  16: 502
+//   11: no HTTP answer at all (connection dropped / transport error)
+var c16AnswerCodes = map[int]int{0: 201, 13: 200, 12: 200, 1: 429, 2: 404, 3: 500, 4: 403, 5: 409, 6: 400, 7: 503, 8: 504, 9: 401, 10: 422,
+	14: 300, 15: 410, 16: 502, 11: 0}
+
+func c16Granted(kind int) bool { return kind == 0 || kind == 12 || kind == 13 }
+
+// enter: one eviction request arrived; returns the scripted answer kind after the barrier (if armed)
+func (r *c16Rec) enter(name string) int {
 	r.mu.Lock()
 	r.allCalls++
-	kind := r.script[ev.Name]
+	kind := r.script[name]
 	n, rel := r.barrierN, r.release
 	if n > 0 {
 		r.arrived++
@@ -71,19 +86,106 @@ func (r *c16Rec) evict(ev *policy.Eviction) error {
 		case <-time.After(r.timeout):
 		}
 	}
+	return kind
+}
+
+func (r *c16Rec) granted(ns, name string) {
+	r.mu.Lock()
+	r.okCalls = append(r.okCalls, ns+"/"+name)
+	r.mu.Unlock()
+}
+
+// the error value client-go hands to the caller for an answer kind (wrapper mode: no HTTP involved)
+func c16ErrorFor(kind int, name string) error {
 	gr := schema.GroupResource{Resource: "pods"}
 	switch kind {
 	case 1:
 		return apierrors.NewTooManyRequests("verif", 1)
 	case 2:
-		return apierrors.NewNotFound(gr, ev.Name)
+		return apierrors.NewNotFound(gr, name)
 	case 3:
 		return apierrors.NewInternalError(fmt.Errorf("verif"))
+	case 4:
+		return apierrors.NewForbidden(gr, name, fmt.Errorf("verif"))
+	case 5:
+		return apierrors.NewConflict(gr, name, fmt.Errorf("verif"))
+	case 6:
+		return apierrors.NewBadRequest("verif")
+	case 7:
+		return apierrors.NewServiceUnavailable("verif")
+	case 8:
+		return apierrors.NewTimeoutError("verif", 1)
+	case 9:
+		return apierrors.NewUnauthorized("verif")
+	case 10:
+		return apierrors.NewInvalid(schema.GroupKind{Kind: "Eviction"}, name, nil)
+	case 11:
+		return errors.New("verif: connection reset by peer")
+	case 14, 15, 16:
+		return apierrors.NewGenericServerResponse(c16AnswerCodes[kind], "post", gr, name, "verif", 0, true)
 	}
-	r.mu.Lock()
-	r.okCalls = append(r.okCalls, ev.Namespace+"/"+ev.Name)
-	r.mu.Unlock()
 	return nil
+}
+
+func (r *c16Rec) evict(ev *policy.Eviction) error {
+	kind := r.enter(ev.Name)
+	if !c16Granted(kind) {
+		return c16ErrorFor(kind, ev.Name)
+	}
+	r.granted(ev.Namespace, ev.Name)
+	return nil
+}
+
+// HTTP mode: a real client-go clientset talks to this server, so the mapping from status codes (and bodies) to the error
+// values that EvictPod inspects is client-go's own.  bodyless: error answers carry no Status object (reason derived from the code).
+func c16HTTPServer(rec *c16Rec, bodyless bool) (*httptest.Server, clientset.Interface) {
+	srv := httptest.NewServer(http.HandlerFunc(func(w http.ResponseWriter, req *http.Request) {
+		parts := strings.Split(strings.Trim(req.URL.Path, "/"), "/") // api v1 namespaces <ns> pods <name> eviction
+		if req.Method != http.MethodPost || len(parts) != 7 || parts[6] != "eviction" {
+			http.Error(w, "verif: unexpected request "+req.Method+" "+req.URL.Path, http.StatusTeapot)
+			return
+		}
+		ns, name := parts[3], parts[5]
+		kind := rec.enter(name)
+		code := c16AnswerCodes[kind]
+		if code == 0 {
+			if hj, ok := w.(http.Hijacker); ok {
+				if conn, _, err := hj.Hijack(); err == nil {
+					conn.Close()
+				}
+			}
+			return
+		}
+		var st metav1.Status
+		switch {
+		case kind == 12:
+			st = metav1.Status{Status: metav1.StatusFailure, Reason: metav1.StatusReasonInternalError, Code: 500, Message: "verif: failure body under 200"}
+		case code < 300:
+			st = metav1.Status{Status: metav1.StatusSuccess, Code: int32(code)}
+		default:
+			var se *apierrors.StatusError
+			if errors.As(c16ErrorFor(kind, name), &se) {
+				st = se.ErrStatus
+			}
+		}
+		if c16Granted(kind) {
+			rec.granted(ns, name)
+		}
+		if bodyless && code >= 300 {
+			w.WriteHeader(code)
+			return
+		}
+		st.TypeMeta = metav1.TypeMeta{Kind: "Status", APIVersion: "v1"}
+		b, _ := json.Marshal(&st)
+		w.Header().Set("Content-Type", "application/json")
+		w.WriteHeader(code)
+		_, _ = w.Write(b)
+	}))
+	cs, err := clientset.NewForConfig(&restclient.Config{Host: srv.URL, QPS: -1})
+	if err != nil {
+		panic(err)
+	}
+	return srv, cs
 }
 
 type c16Clientset struct {
@@ -264,7 +366,8 @@ func TestVerifC16Evict(t *testing.T) {
 		h.End()
 	}
 	h.Close("one case = one history of 3-14 eviction requests over 4 node names (one empty) x 3 namespaces with caps in {nil,0,1,2,3}, " +
-		"dry-run 1/6, scripted API failures (429/404/500) 1/5; every 20th case adds N=2..16 goroutines held inside the API call; " +
+		"dry-run 1/6, scripted API answers 1/4 of the requests from every status class (200 / 201 / 200 with a failure body / 300 / 400 401 403 404 409 410 422 429 / 500 502 503 504 / " +
+		"connection dropped), one third of the sequential cases through a real client-go clientset and an HTTP test server (error bodies present or absent); every 20th case adds N=2..16 goroutines held inside the API call; " +
 		"every 5th case drives EvictionLimiter.AllowEvict/Done/Reset directly. Non-trivial = at least one refusal and one granted eviction")
 }
 
@@ -275,7 +378,14 @@ func c16PodEvictorCase(h *vHarness, r *vRand, withConc bool) {
 		dry = false
 	}
 	rec := &c16Rec{script: map[string]int{}, timeout: 30 * time.Millisecond}
-	cs := &c16Clientset{Interface: fake.NewSimpleClientset(), rec: rec}
+	var cs clientset.Interface = &c16Clientset{Interface: fake.NewSimpleClientset(), rec: rec}
+	httpMode := !withConc && r.Chance(1, 3)
+	if httpMode { // a real clientset against a scripted HTTP API server
+		srv, real := c16HTTPServer(rec, r.Chance(1, 3))
+		defer srv.Close()
+		cs = real
+	}
+	h.Tag(fmt.Sprintf("pe:http=%d", vB(httpMode)))
 	pe := NewPodEvictor(cs, &events.FakeRecorder{}, "policy/v1", dry, c16Ptr(capNode), c16Ptr(capNs))
 	h.Op("pe %d %d %d", vB(dry), capNode, capNs)
 	h.Tag(fmt.Sprintf("pe:capnode=%d", capNode))
@@ -297,16 +407,24 @@ func c16PodEvictorCase(h *vHarness, r *vRand, withConc bool) {
 			node, ns = 1, 0
 		}
 		kind := 0
-		if r.Chance(1, 5) {
-			kind = r.Range(1, 3)
+		if r.Chance(1, 4) {
+			kind = r.Range(1, 16)
+			if kind == 12 && !httpMode {
+				kind = 13 // a failure body under a 2xx code only exists on the wire
+			}
+		} else if r.Chance(1, 8) {
+			kind = 13
 		}
 		seq++
 		pod := c16Pod(seq, node, ns)
 		rec.script[pod.Name] = kind
+		if !dry {
+			h.Tag(fmt.Sprintf("ev:answer=%d", c16AnswerCodes[kind]))
+		}
 		before, okBefore := rec.allCalls, len(rec.okCalls)
 		bt, bn, bs := c16PEReported(pe)
 		var ok bool
-		h.Op("ev %d %d %d", node, ns, vB(kind == 0))
+		h.Op("ev %d %d %d", node, ns, vB(c16Granted(kind)))
 		if h.Guard(func() { ok = pe.Evict(context.TODO(), pod, framework.EvictOptions{Reason: "verif"}) }) {
 			h.Obs("panic")
 			h.Fail("C16:panic", "PodEvictor.Evict panicked")
